@@ -60,6 +60,14 @@ def run(ctx):
         jobs.append(("script", dict(cfg=dict(k=k, solveT=T, skipT=0, out="temp", foreign=[], bad="none"),
                                     tdts=[], simdts=sim, flog=[], probes=[0, 2, 3][n % 3], screening=bool(n % 2),
                                     progress=10 ** 9)))
+    # history: two runs of one process written to the same output path (the first removed with os.remove):
+    # same save interval and frame count, different step sizes — nothing of the first run may show in the second
+    for n in range(8 if ctx.quick else 40):
+        k = [1, 2, 3][n % 3]
+        N = rnd.randint(2, 6)
+        jobs.append(("script", dict(cfg=dict(k=k, solveT=2 * N, skipT=0, out="path", foreign=[], bad="none"), tdts=[], simdts=[2] * N,
+                                    flog=[], probes=[0, 2, 3][n % 3], screening=bool(n % 2), progress=10 ** 9,
+                                    prior=dict(k=k, solveT=N, simdts=[1] * N))))
     # 3. natural runs of the real solver (adaptive with retries, fixed step, screening, thermalisation)
     from harness import runnat
     jobs += [("natural", p) for p in runnat.c05_matrix(ctx)]
